@@ -607,6 +607,14 @@ impl Table {
         self.0.checksum
     }
 
+    /// Stored (lowest, highest) sequence numbers, without the global seqno offset.
+    #[cfg(feature = "verif")]
+    #[must_use]
+    #[doc(hidden)]
+    pub fn verif_seqno_range(&self) -> (SeqNo, SeqNo) {
+        self.metadata.seqnos
+    }
+
     pub(crate) fn mark_as_deleted(&self) {
         self.0
             .is_deleted
